@@ -291,7 +291,7 @@ class Dec:
 
 
 class _St:
-    __slots__ = ("events", "dec", "decl", "vals", "ver", "epoch", "n", "ret", "exc", "handled", "skip")
+    __slots__ = ("events", "dec", "decl", "vals", "ver", "epoch", "n", "ret", "exc", "handled", "skip", "imps")
 
     def __init__(self):
         self.events = ()
@@ -305,6 +305,7 @@ class _St:
         self.exc = None
         self.handled = None
         self.skip = ()
+        self.imps = ()
 
     def fork(self):
         s = _St()
@@ -318,6 +319,7 @@ class _St:
         s.ret = self.ret
         s.exc = self.exc
         s.handled = self.handled
+        s.imps = self.imps
         return s
 
 
@@ -341,6 +343,9 @@ class Outcome:
         self.vals = st.vals
         self.env = env
         self.w = walker
+        # implicit exceptions this path continued from, in order: (statement, its function, the statement's resolved
+        # expressions, the handler entered, the handler's function, number of events before the handler)
+        self.implicit = list(st.imps)
 
     # -- events -----------------------------------------------------------
     def calls(self, pred=None, partial=None):
@@ -1646,6 +1651,8 @@ class Walker:
                 st2 = st.fork()
                 env2 = dict(env)
                 st2.handled = st.exc
+                if getattr(st.exc, "_implicit", False):
+                    st2.imps = st.imps + ((st.exc._o, st.exc._fi, getattr(st.exc, "_rexprs", ()), node.ast, fr.fi, len(st.events)),)
                 if node.ast.name:
                     env2[node.ast.name] = st.exc
                 st2.exc = None
@@ -1805,6 +1812,8 @@ class Walker:
         st2.epoch = st.epoch + 1
         x = ast.Name(id="__exc__", ctx=ast.Load())
         x._o, x._fi, x._inst, x._implicit = cfg.nodes[nid].ast, fr.fi, st2.n, True
+        # what the statement was evaluating when it was left (resolved under the path, nothing recorded)
+        x._rexprs = tuple(self._R(e, dict(env), fr, st.fork(), [], quiet=True) for e in exprs if e is not None)
         st2.n += 1
         self._throw(fr, nid, env, st2, x, False, todo, visits)
 
